@@ -633,10 +633,16 @@ impl<'de> de::Deserializer<'de> for Variable {
             Variable::String(v) => visitor.visit_string(v),
             Variable::Array(v) => {
                 let len = v.len();
-                visitor.visit_seq(SeqDeserializer {
+                let mut deserializer = SeqDeserializer {
                     iter: v.into_iter(),
                     len,
-                })
+                };
+                let seq = visitor.visit_seq(&mut deserializer)?;
+                if deserializer.iter.len() == 0 {
+                    Ok(seq)
+                } else {
+                    Err(de::Error::invalid_length(len, &"fewer elements in array"))
+                }
             }
             Variable::Object(v) => visitor.visit_map(MapDeserializer {
                 iter: v.into_iter(),
@@ -835,7 +841,14 @@ impl<'de> de::Deserializer<'de> for SeqDeserializer {
         if self.len == 0 {
             visitor.visit_unit()
         } else {
-            visitor.visit_seq(self)
+            let len = self.len;
+            let mut deserializer = self;
+            let seq = visitor.visit_seq(&mut deserializer)?;
+            if deserializer.iter.len() == 0 {
+                Ok(seq)
+            } else {
+                Err(de::Error::invalid_length(len, &"fewer elements in array"))
+            }
         }
     }
 
